@@ -740,6 +740,10 @@ def dropped_sites(db, rep):
     from rules import libtab as _lt
     prog = db.program('qmail-remote')
     fn = prog.fn('dropped', 'qmail-remote.c')
+    from rules.C06 import critical_flag
+    flag = critical_flag(prog, fn)          # the global whose being set guards the warning, whatever it is called
+    if flag is None:
+        raise AnalysisBroken('dropped(): the flag guarding the duplicate warning was not identified')
     bad = None
     n = 0
     for crit in (0, 1):
@@ -768,13 +772,13 @@ def dropped_sites(db, rep):
                     outb.append(('exit', _lt._one(args[0])))
                     return 'noreturn'
             H = DH('dropped')
-            _lt._run_conc(db, rep, prog, fn, {'G:flagcritical': fs(crit), '$errno': fs(err), 'G:error_timeout': fs(110)}, 'dropped', H)
+            _lt._run_conc(db, rep, prog, fn, {flag: fs(crit), '$errno': fs(err), 'G:error_timeout': fs(110)}, 'dropped', H)
             n += 1
             text = b''.join(o for o in outb if isinstance(o, bytes) and o is not None)
             ex = [o for o in outb if isinstance(o, tuple)]
             ok = text[:1] == b'Z' and (b'Possible duplicate' in text) == bool(crit) and ex == [('exit', 0)] and text.endswith(b'\0')
             if not ok and bad is None:
-                bad = 'connection lost with flagcritical = %d and errno = %d: the report is %r, exits %s; documented: a Z report, with "Possible duplicate!" exactly when the message may already have been accepted' % (crit, err, text[:120], ex)
+                bad = 'connection lost with the critical-window flag = %d and errno = %d: the report is %r, exits %s; documented: a Z report, with "Possible duplicate!" exactly when the message may already have been accepted' % (crit, err, text[:120], ex)
     return {'dropped:Z-report-with-duplicate-warning-iff-inside-the-critical-window': (bad is None, 'qmail-remote.c:dropped', bad or '%d (flagcritical, errno) pairs' % n, [])}
 
 
